@@ -596,3 +596,97 @@ impl Drop for TcpClient {
         self.close();
     }
 }
+
+#[cfg(test)]
+mod tests {
+    use super::*;
+    use crate::net::{TcpListener, UnixListener, UnixStream};
+    use tokio_real::io::{AsyncReadExt, AsyncWriteExt};
+
+    fn rt() -> tokio_real::runtime::Runtime {
+        tokio_real::runtime::Builder::new_current_thread().build().unwrap()
+    }
+
+    #[test]
+    fn close_gives_eof_and_writes_still_succeed_reset_gives_errors() {
+        rt().block_on(async {
+            let l = TcpListener::bind("127.0.0.1:7001").await.unwrap();
+            let mut c = TcpClient::connect("127.0.0.1:7001").unwrap();
+            let (mut s, _) = l.accept().await.unwrap();
+            c.write(b"abc");
+            let mut buf = [0u8; 8];
+            assert_eq!(s.read(&mut buf).await.unwrap(), 3);
+            c.close();
+            assert_eq!(s.read(&mut buf).await.unwrap(), 0);
+            s.write_all(b"late answer").await.unwrap();
+            assert_eq!(c.take_received(), b"late answer");
+
+            let mut c = TcpClient::connect("127.0.0.1:7001").unwrap();
+            let (mut s, _) = l.accept().await.unwrap();
+            c.write(b"xyz");
+            c.reset_when_consumed();
+            assert_eq!(s.read(&mut buf).await.unwrap(), 3);
+            assert_eq!(s.read(&mut buf).await.unwrap_err().raw_os_error(), Some(104));
+            assert_eq!(s.write(b"x").await.unwrap_err().raw_os_error(), Some(32));
+            assert!(TcpClient::connect("127.0.0.1:7999").is_err());
+        });
+    }
+
+    #[test]
+    fn reading_past_eof_a_thousand_times_is_a_spin() {
+        let r = std::panic::catch_unwind(|| {
+            rt().block_on(async {
+                let l = TcpListener::bind("127.0.0.1:7002").await.unwrap();
+                let mut c = TcpClient::connect("127.0.0.1:7002").unwrap();
+                let (mut s, _) = l.accept().await.unwrap();
+                c.close();
+                let mut buf = [0u8; 8];
+                loop {
+                    let _ = s.read(&mut buf).await.unwrap();
+                }
+            })
+        });
+        let msg = *r.unwrap_err().downcast::<String>().unwrap();
+        assert!(msg.starts_with("SpinDetected"), "{msg}");
+        assert_eq!(spin_info().unwrap().cause, "eof");
+    }
+
+    #[test]
+    fn unix_faults_count_from_the_end_and_hide_from_the_writer() {
+        rt().block_on(async {
+            let dir = std::env::temp_dir().join(format!("simtokio-test-{}", std::process::id()));
+            std::fs::create_dir_all(&dir).unwrap();
+            let path = dir.join("s");
+            let _ = std::fs::remove_file(&path);
+            let l = UnixListener::bind(&path).unwrap();
+            assert!(UnixListener::bind(&path).is_err());
+            for (fault, want) in [
+                (UnixFault::None, &b"0123456789"[..]),
+                (UnixFault::Truncate { drop_tail: 4 }, &b"012345"[..]),
+                (UnixFault::Corrupt { from_end: 1, xor: 1 }, &b"0123456788"[..]),
+                (UnixFault::CloseBeforeWrite, &b""[..]),
+            ] {
+                set_next_unix_fault(fault);
+                let mut c = UnixStream::connect(&path).await.unwrap();
+                let (mut s, _) = l.accept().await.unwrap();
+                s.write_all(b"0123456789").await.unwrap();
+                drop(s);
+                let mut got = Vec::new();
+                c.read_to_end(&mut got).await.unwrap();
+                assert_eq!(got, want, "{fault:?}");
+            }
+            set_next_unix_fault(UnixFault::Refuse);
+            assert_eq!(UnixStream::connect(&path).await.err().unwrap().raw_os_error(), Some(111));
+            // a writer whose peer is really gone gets EPIPE
+            let c = UnixStream::connect(&path).await.unwrap();
+            let (mut s, _) = l.accept().await.unwrap();
+            drop(c);
+            assert_eq!(s.write(b"x").await.unwrap_err().raw_os_error(), Some(32));
+            let recs = take_unix_records();
+            assert_eq!(recs.len(), 5);
+            assert_eq!(recs[1].written, b"0123456789");
+            assert_eq!(recs[1].delivered, b"012345");
+            std::fs::remove_dir_all(&dir).unwrap();
+        });
+    }
+}
